@@ -27,7 +27,7 @@ def run(tier, seed, replay=None):
         return (not all(ok for ok, _ in ref)) and not result < 100
     run.shrinker = still_fails
     from harness.common import corpus_cases
-    cases = [replay["case"]] if replay else corpus_cases("C04") + \
+    cases = [replay["case"]] if replay else corpus_cases("C04") + rc.empty_run_cases(True) + \
         [rc.make_case(run.rng, tier, damage=True, max_damage=3)
          for _ in range(200 if tier == "quick" else 1500)]
     for case in cases:
